@@ -315,7 +315,7 @@ fn render_msg_fields(m: &AisMessage) -> String {
 
 fn render_sentence(s: &AisSentence) -> String {
     format!(
-        "talker={:?} report={:?} nf={} fn={} id={} ch={} data={} fill={} mt={} msg={}",
+        "talker={:?} report={:?} nf={} fn={} id={} ch={} data={} fill={} mt={} hm={} fr={} msg={}",
         s.talker_id,
         s.report_type,
         s.num_fragments,
@@ -328,6 +328,8 @@ fn render_sentence(s: &AisSentence) -> String {
         hex(&s.data[..]),
         s.fill_bit_count,
         s.message_type,
+        s.has_more(),
+        s.is_fragment(),
         match &s.message {
             None => "none".to_string(),
             Some(m) => render_msg(m),
@@ -517,6 +519,35 @@ fn do_sweep(t: u8, key: &str, off: usize, w: usize, lo: u64, hi: u64) -> String 
     format!("ok {} {} {}", hi.saturating_sub(lo), absent, h)
 }
 
+fn parse_as(t: u8, bs: &[u8]) -> Option<ais::errors::Result<AisMessage>> {
+    use ais::messages::AisMessageType;
+    use messages::*;
+    Some(match t {
+        1..=3 => position_report::PositionReport::parse(bs).map(AisMessage::PositionReport),
+        4 => base_station_report::BaseStationReport::parse(bs).map(AisMessage::BaseStationReport),
+        5 => static_and_voyage_related_data::StaticAndVoyageRelatedData::parse(bs).map(AisMessage::StaticAndVoyageRelatedData),
+        6 => binary_addressed::BinaryAddressedMessage::parse(bs).map(AisMessage::BinaryAddressedMessage),
+        7 => binary_acknowledge::BinaryAcknowledge::parse(bs).map(AisMessage::BinaryAcknowledgeMessage),
+        8 => binary_broadcast_message::BinaryBroadcastMessage::parse(bs).map(AisMessage::BinaryBroadcastMessage),
+        9 => standard_aircraft_position_report::SARPositionReport::parse(bs).map(AisMessage::StandardAircraftPositionReport),
+        10 => utc_date_inquiry::UtcDateInquiry::parse(bs).map(AisMessage::UtcDateInquiry),
+        11 => utc_date_response::UtcDateResponse::parse(bs).map(AisMessage::UtcDateResponse),
+        12 => addressed_safety_related::AddressedSafetyRelatedMessage::parse(bs).map(AisMessage::AddressedSafetyRelatedMessage),
+        13 => safety_related_acknowledgment::SafetyRelatedAcknowledge::parse(bs).map(AisMessage::SafetyRelatedAcknowledgment),
+        14 => safety_related_broadcast::SafetyRelatedBroadcastMessage::parse(bs).map(AisMessage::SafetyRelatedBroadcastMessage),
+        15 => interrogation::Interrogation::parse(bs).map(AisMessage::Interrogation),
+        16 => assignment_mode_command::AssignmentModeCommand::parse(bs).map(AisMessage::AssignmentModeCommand),
+        17 => dgnss_broadcast_binary_message::DgnssBroadcastBinaryMessage::parse(bs).map(AisMessage::DgnssBroadcastBinaryMessage),
+        18 => standard_class_b_position_report::StandardClassBPositionReport::parse(bs).map(AisMessage::StandardClassBPositionReport),
+        19 => extended_class_b_position_report::ExtendedClassBPositionReport::parse(bs).map(AisMessage::ExtendedClassBPositionReport),
+        20 => data_link_management_message::DataLinkManagementMessage::parse(bs).map(AisMessage::DataLinkManagementMessage),
+        21 => aid_to_navigation_report::AidToNavigationReport::parse(bs).map(AisMessage::AidToNavigationReport),
+        24 => static_data_report::StaticDataReport::parse(bs).map(AisMessage::StaticDataReport),
+        27 => long_range_ais_broadcast::LongRangeAisBroadcastMessage::parse(bs).map(AisMessage::LongRangeAisBroadcastMessage),
+        _ => return None,
+    })
+}
+
 fn main() {
     std::panic::set_hook(Box::new(|_| {}));
     let stdin = io::stdin();
@@ -550,6 +581,16 @@ fn main() {
                     Ok(Ok(m)) => format!("ok {}", render_msg(&m)),
                 },
                 None => "bad-op".to_string(),
+            },
+            // the per-type public entry point `<Type as AisMessageType>::parse`, bypassing the dispatch
+            ["P", t, h] => match (t.parse::<u8>(), unhex(h)) {
+                (Ok(t), Some(bs)) => match catch_unwind(|| parse_as(t, &bs)) {
+                    Err(_) => "panic".to_string(),
+                    Ok(None) => "bad-op".to_string(),
+                    Ok(Some(Err(_))) => "err".to_string(),
+                    Ok(Some(Ok(m))) => format!("ok {}", render_msg(&m)),
+                },
+                _ => "bad-op".to_string(),
             },
             ["T", name, code] => match code.parse::<u8>() {
                 Ok(c) => do_table(name, c),
